@@ -597,3 +597,30 @@ def histories(draw, tier="quick"):
 
 
 PARTS = [Part("histories", strategy=lambda tier: histories(tier), run=run_history, quick=6000, thorough=80000)]
+
+
+# ---------------------------------------------------------------------------------------------------
+# Sensitivity record (scratch copy of /repo/tradingenv, one mutant at a time,
+# `VERIF_PKG_ROOT=<scratch> ./check C14 --tier quick --no-evidence`, VERIF_SEED=1; M6/M8/M9 also seeds 2-3).
+# Every mutant: exit 1 + VIOLATION, shrunk to 1-4 ops.
+#   M1  process_EventNBBO updates dead books too                       caught (d, q -> price on a dead book)
+#   M2  terminate() drops the history                                  caught (q, d -> history empty)
+#   M3  __hash__ = hash((class name, symbol))                          caught (string key / other-class clone misses)
+#   M4  acq_price(q<0) returns mid                                     caught (1 op)
+#   M5  a quote for X also overwrites the ask of the book updated at the previous event time   caught (2 ops)
+#   M6  FutureChain lead resolved with bisect_left                     caught (clock exactly at a last trading date,
+#                                                                       then a chain-key quote lands in the stale lead)
+#   M7  acq_price(q<=0) returns bid (flat priced at bid)               caught
+#   M8  FutureChain.static_hashing caches the first lead               caught (q via chain, clock across a roll, q)
+#   M9  history mid not recomputed when the bid is unchanged           caught only after sticky prices (100, 99.9,
+#                                                                       100.1, ...) were added to the price strategy
+#   M10 second terminate() revives the book                            caught
+#   M11 terminate() keeps bid/ask sizes                                caught
+#   M12 liq_price(0) returns bid                                       caught
+#   M13 string keys normalised with strip().upper()                    caught only after mixed-case symbols
+#                                                                       ('BRK.b', 'spy' next to 'SPY') were added
+#   M14 default (infinite) bid size not stored                         caught
+#   M15 discontinuation ignored for a never-quoted book                caught
+# Note: st.one_of() de-duplicates repeated strategy objects; op weights use distinct .map wrappers.
+# Unchanged tree: exit 0 for VERIF_SEED=1..5 (6000 histories, ~35 s on an idle 16-core box, 50-90 s when
+# the machine is shared), about 48% of the histories satisfy the non-trivial rule.
